@@ -284,7 +284,9 @@ func TestVerifVBPoolReplay(t *testing.T) {
 	vhIn(&in)
 	out := vhOpenOut()
 	defer out.Close()
-	net := vbNewNet(in.N, in.C, true)
+	// the identity participant order is only needed where the C34 model states the roles as constants (N = 4, 7);
+	// the pool-level model takes the roles of every configuration from this harness
+	net := vbNewNet(in.N, in.C, in.N == 4 || in.N == 7)
 	s := net.vbServer(uint32(in.Self))
 	first := net.observePool(s)
 	first.Path, first.Step = -1, 0
